@@ -45,7 +45,10 @@ def models():
 def plan(tier, seed):
   evs = rs.events(tier, blk=True)
   depth = 3 if tier == 'quick' else 4
-  cases = [{'first': i, 'depth': depth, 'tier': tier} for i in range(len(evs))]
+  cases = [{'first': i, 'depth': 3, 'tier': tier} for i in range(len(evs))]
+  if tier == 'thorough':
+    cases = [{'first': i, 'depth': 4, 'tier': 'quick'}
+             for i in range(len(rs.events('quick', blk=True)))] + cases
   cases.append({'files': True, 'tier': tier})
   return {
       'cases': cases, 'chunk': 1,
